@@ -1,0 +1,12 @@
+//go:build verif
+
+package share
+
+// Contracts for the deductive verifier in /verif (govc). Comments only; build tag "verif".
+
+// The root a sample at (rowIdx, colIdx) must be proven against: the row root for a row proof, the
+// column root for a column proof.
+//@ func RootHashForCoordinates
+//@   property C01
+//@   ensures axisType == rsmt2d.Row ==> result == r.RowRoots[rowIdx]
+//@   ensures axisType != rsmt2d.Row ==> result == r.ColumnRoots[colIdx]
